@@ -195,6 +195,7 @@ def check_residual(case):
     if not nonconst_columns(res):
         raise Reject('constant channel', 'degenerate:constant-channel')
     method, dof = case['method'], case['dof']
+    res = gen.relayout(res)     # C / Fortran / strided / transposed memory, by shape
     before = res.copy()
     est = lib(N.cov_from_residuals, res, dof=dof, method=method, on_error='violation',
               sig='raises:cov_from_residuals')
@@ -312,7 +313,7 @@ def _mk_dataset(case):
     des = case['design']
     meas = np.array(case['meas'], dtype=float)
     obs = gen.as_desc(des['obs'], case['container'])
-    return Dataset(meas.copy(), obs_descriptors={'cond': obs}), meas
+    return Dataset(gen.relayout(meas.copy()), obs_descriptors={'cond': obs}), meas
 
 
 def check_dataset(case):
